@@ -254,8 +254,7 @@ class Universe:
                 if r.random() < .9:
                     ab[int(amap[e])] = (ch([0, 4, 20, 1.5]), ch([0, 1, 3, 12, 0, 2]))
             self._add('fighter', at, effects=effs, default=ch(effs), abilities=ab)
-        # an implant carrying a local repairer (runs under force_run; its solar-system carrier is None,
-        # which `is` the ship of a fit without ship)
+        # an implant carrying a local repairer (runs under force_run; its solar-system carrier is None)
         self._add('implant', {A.armor_dmg_amount: 30, self.dur[0]: 2000}, effects=['plain', 'armor_repair'])
         self.types_absent = [999001, 999002]      # ids no source knows
 
